@@ -702,6 +702,7 @@ const (
 	KReadAllClose                  // read one full request (head + body), close without a reply
 	KPartial                       // read the request head, write Data (e.g. half a status line), close
 	KHold                          // read one full request, wait for Release(), write Data, close
+	KReplyThenHold                 // read one full request, write Data (may be empty), keep the connection open until Release(), close
 )
 
 type Step struct {
@@ -724,6 +725,9 @@ func Partial(data []byte) Step   { return Step{Kind: KPartial, Data: data} }
 // Hold returns a step that replies only after Release(step) was called.
 func Hold(data []byte) Step { return Step{Kind: KHold, Data: data, hold: make(chan struct{})} }
 func Release(s Step)        { close(s.hold) }
+
+// ReplyThenHold replies at once and then keeps the connection open (a tunnel) until Release(step).
+func ReplyThenHold(data []byte) Step { return Step{Kind: KReplyThenHold, Data: data, hold: make(chan struct{})} }
 
 // Conn is the record of one accepted backend connection.
 type Conn struct {
@@ -1147,6 +1151,17 @@ func (b *Backend) serve(c net.Conn, rec *Conn) {
 				b.Plan.markHeld(id)
 			}
 			<-st.hold
+		case KReplyThenHold:
+			if len(st.Data) > 0 {
+				if _, err := c.Write(st.Data); err != nil {
+					return
+				}
+			}
+			if b.Plan != nil {
+				b.Plan.markHeld(id)
+			}
+			<-st.hold
+			return
 		}
 		if _, err := c.Write(st.Data); err != nil {
 			return
